@@ -312,6 +312,41 @@ def register(T, repo):
                     d['expr'] = e
                     yield d
     c.replay_candidates = sub_candidates
+
+    def sub_sampler(rng):
+        import re
+        n = rng.randint(0, 7)
+        txt = ''.join(rng.choice('ab ') for _ in range(n))
+        pos = [rng.randint(0, 30) for _ in range(n)]
+        if n and rng.random() < 0.9:
+            a = rng.randrange(n)
+            b = rng.randint(a + 1, n)
+            expr = re.escape(txt[a:b])
+        else:
+            expr = rng.choice(['a*', 'b?', 'x'])
+        repl = ''.join(rng.choice('XY') for _ in range(rng.randint(0, 5)))
+        return {'i_txt': txt, 'i_pos': pos, 'expr': expr, 'repl': repl}
+    c.sampler = sub_sampler
+
+    def sub_native(a, result):
+        # the per-match body contract, unrolled over the real matches
+        import re
+        txt, pos, expr, repl = a['i_txt'], a['i_pos'], a['expr'], a['repl']
+        et, ep, last = '', [], 0
+        for m in re.finditer(expr, txt):
+            if m.end() == m.start():
+                continue
+            cur, ml = m.start(), m.end() - m.start()
+            et += txt[last:cur] + repl
+            ep += pos[last:cur] + [pos[cur + min(k, ml - 1)]
+                                   for k in range(len(repl))]
+            last = m.end()
+        et += txt[last:]
+        ep += pos[last:]
+        if (et, ep) != tuple(result):
+            return 'expected %r, got %r' % ((et, ep), result)
+        return None
+    c.native_post = sub_native
     T.empty_hints[(U + 'substitute', 'o_pos')] = 'ilist'
 
 
